@@ -12,7 +12,10 @@
 (*   format_context(template)(ctx)          FParse, FRender                *)
 (*   to_string(ctx), to_string(ctx2)        TStr                           *)
 (*   UpdateContext(path, update, options)   UMake, UResolve, UWalk, USet   *)
-(*   DeleteContext(path)                    DMake, DEmpty, DWalk, DDel     *)
+(*   DeleteContext(path)                    DMake (normalises the key      *)
+(*                                          written as list / tuple /      *)
+(*                                          dotted string), DEmpty, DWalk, *)
+(*                                          DDel                           *)
 (*   format_update_with(path, value, ctx)   WFormat, WUpdate               *)
 (*                                                                         *)
 (* The updating calls are elements: UpdateContext / DeleteContext objects  *)
@@ -71,8 +74,10 @@ VARIABLES call,                \* the call: constructor / function arguments as 
           ctx,                 \* the context now
           pc, out,             \* control; outcome
           ptr,                 \* keys walked so far
-          upd                  \* resolved update value
-vars == <<call, elem, flow0, results, ctx0, ctx2, ctx, pc, out, ptr, upd>>
+          upd,                 \* resolved update value
+          nt,                  \* DeleteContext: the notation the key argument is written in ("-": not modelled)
+          mode                 \* DeleteContext: what the element does with an empty key (undocumented policy)
+vars == <<call, elem, flow0, results, ctx0, ctx2, ctx, pc, out, ptr, upd, nt, mode>>
 
 SingleFlows == {<<c>> : c \in Ctxs}
 Init == /\ call \in Calls
@@ -82,6 +87,8 @@ Init == /\ call \in Calls
         /\ ctx2 \in IF call.op = "tostr" THEN {d \in Ctxs : \A k \in Keys(d) : ~IsD(d.m[k]) \/ Keys(d.m[k]) = {}}
                     ELSE {Empty}
         /\ ctx = ctx0 /\ pc = "start" /\ out = Ok(NoVal) /\ ptr = <<>> /\ upd = NoVal
+        /\ nt \in IF call.op = "delete" THEN {n \in Notations : HasNotation(n, call.path)} ELSE {"-"}
+        /\ mode \in IF call.op = "delete" /\ call.path = <<>> THEN EmptyKeyModes ELSE {"clear"}
 
 Done == pc = "done"
 Return(o) == out' = o /\ pc' = "done"
@@ -95,13 +102,13 @@ GWalk == /\ pc = "start" /\ call.op = "get" /\ Len(ptr) + 1 < Len(call.path)
               IF k \in Keys(d) /\ IsD(d.m[k])
                 THEN ptr' = Append(ptr, k) /\ UNCHANGED <<pc, out>>
               ELSE Return(Missing) /\ ptr' = ptr
-         /\ UNCHANGED <<call, elem, flow0, results, ctx0, ctx2, ctx, upd>>
+         /\ UNCHANGED <<nt, mode, call, elem, flow0, results, ctx0, ctx2, ctx, upd>>
 GLast == /\ pc = "start" /\ call.op = "get" /\ Len(ptr) + 1 >= Len(call.path)
          /\ LET d == Get(ctx, ptr) IN
               IF call.path = <<>> THEN Return(Ok(ctx))
               ELSE IF Last(call.path) \in Keys(d) THEN Return(Ok(d.m[Last(call.path)]))
               ELSE Return(Missing)
-         /\ UNCHANGED <<call, elem, flow0, results, ctx0, ctx2, ctx, ptr, upd>>
+         /\ UNCHANGED <<nt, mode, call, elem, flow0, results, ctx0, ctx2, ctx, ptr, upd>>
 
 (***************************************************************************)
 (* contains(d, "k1.k2...kn"), n >= 1                                       *)
@@ -111,12 +118,12 @@ CWalk == /\ pc = "start" /\ call.op = "contains" /\ Len(ptr) + 1 < Len(call.path
               IF IsD(d) /\ k \in Keys(d)
                 THEN ptr' = Append(ptr, k) /\ UNCHANGED <<pc, out>>
               ELSE Return(Ok(FALSE)) /\ ptr' = ptr
-         /\ UNCHANGED <<call, elem, flow0, results, ctx0, ctx2, ctx, upd>>
+         /\ UNCHANGED <<nt, mode, call, elem, flow0, results, ctx0, ctx2, ctx, upd>>
 CLast == /\ pc = "start" /\ call.op = "contains" /\ Len(ptr) + 1 = Len(call.path)
          /\ LET d == Get(ctx, ptr)  k == Last(call.path) IN
               IF IsD(d) THEN Return(Ok(k \in Keys(d)))
               ELSE Return(Ok(d.s = k))
-         /\ UNCHANGED <<call, elem, flow0, results, ctx0, ctx2, ctx, ptr, upd>>
+         /\ UNCHANGED <<nt, mode, call, elem, flow0, results, ctx0, ctx2, ctx, ptr, upd>>
 
 \* dictionary key notation: every level is inspected while the keys are collected
 GDNorm == /\ pc = "start" /\ call.op = "getd"
@@ -126,11 +133,11 @@ GDNorm == /\ pc = "start" /\ call.op = "getd"
              ELSE IF call.uk = "kd-nonstr"
                THEN \E r \in GetDOutcomes(call, ctx) : Return(r)
              ELSE Return(GetRefC(call, ctx))
-          /\ UNCHANGED <<call, elem, flow0, results, ctx0, ctx2, ctx, ptr, upd>>
+          /\ UNCHANGED <<nt, mode, call, elem, flow0, results, ctx0, ctx2, ctx, ptr, upd>>
 
 S2D == /\ pc = "start" /\ call.op = "s2d"
        /\ Return(S2DOutcome(call.path))
-       /\ UNCHANGED <<call, elem, flow0, results, ctx0, ctx2, ctx, ptr, upd>>
+       /\ UNCHANGED <<nt, mode, call, elem, flow0, results, ctx0, ctx2, ctx, ptr, upd>>
 
 (***************************************************************************)
 (* format_context(template)(ctx): the template is checked once, the fields *)
@@ -140,15 +147,15 @@ FParse == /\ pc = "start" /\ call.op = "format"
           /\ IF call.uk = "bad" THEN Return(Raise("LenaValueError"))
              ELSE IF call.uk = "simple" THEN Return(Raise("LenaTypeError"))
              ELSE pc' = "parsed" /\ out' = out
-          /\ UNCHANGED <<call, elem, flow0, results, ctx0, ctx2, ctx, ptr, upd>>
+          /\ UNCHANGED <<nt, mode, call, elem, flow0, results, ctx0, ctx2, ctx, ptr, upd>>
 FRender == /\ pc = "parsed" /\ call.op = "format"
            /\ IF AllPresent(ctx, call.tpl) THEN Return(Ok(Render(ctx, call.tpl)))
               ELSE Return(Raise("LenaKeyError"))
-           /\ UNCHANGED <<call, elem, flow0, results, ctx0, ctx2, ctx, ptr, upd>>
+           /\ UNCHANGED <<nt, mode, call, elem, flow0, results, ctx0, ctx2, ctx, ptr, upd>>
 
 TStr == /\ pc = "start" /\ call.op = "tostr"
         /\ Return([ok |-> TRUE, r |-> Canon(ctx, KeyOrder), r2 |-> Canon(ctx2, KeyOrder), same |-> ctx = ctx2])
-        /\ UNCHANGED <<call, elem, flow0, results, ctx0, ctx2, ctx, ptr, upd>>
+        /\ UNCHANGED <<nt, mode, call, elem, flow0, results, ctx0, ctx2, ctx, ptr, upd>>
 
 (***************************************************************************)
 (* UpdateContext                                                           *)
@@ -156,7 +163,7 @@ TStr == /\ pc = "start" /\ call.op = "tostr"
 UMake == /\ pc = "start" /\ call.op = "update"
          /\ IF MakeExc(call) # "" THEN Return(Raise(MakeExc(call)))
             ELSE pc' = "built" /\ out' = out
-         /\ UNCHANGED <<call, elem, flow0, results, ctx0, ctx2, ctx, ptr, upd>>
+         /\ UNCHANGED <<nt, mode, call, elem, flow0, results, ctx0, ctx2, ctx, ptr, upd>>
 \* the update value: simple value, deep copy of a context item, or rendered template;
 \* a missing item / field: default, skip (value returned unchanged), LenaKeyError, or "" in a template
 UResolve ==
@@ -172,13 +179,13 @@ UResolve ==
         THEN upd' = Rendered /\ pc' = "walk" /\ out' = out
      ELSE IF elem.o.skip THEN Return(Ok(ctx)) /\ upd' = upd
      ELSE Return(Raise("LenaKeyError")) /\ upd' = upd
-  /\ UNCHANGED <<call, elem, flow0, results, ctx0, ctx2, ctx, ptr>>
+  /\ UNCHANGED <<nt, mode, call, elem, flow0, results, ctx0, ctx2, ctx, ptr>>
 \* for key in keys[:-1]: create / replace by {} what is not a dictionary
 UWalk == /\ pc = "walk" /\ call.op = "update" /\ Len(ptr) + 1 < Len(elem.path)
          /\ LET k == elem.path[Len(ptr) + 1]  d == Get(ctx, ptr) IN
               /\ ctx' = IF k \in Keys(d) /\ IsD(d.m[k]) THEN ctx ELSE Put(ctx, Append(ptr, k), Empty)
               /\ ptr' = Append(ptr, k)
-         /\ UNCHANGED <<call, elem, flow0, results, ctx0, ctx2, pc, out, upd>>
+         /\ UNCHANGED <<nt, mode, call, elem, flow0, results, ctx0, ctx2, pc, out, upd>>
 USet == /\ pc = "walk" /\ call.op = "update" /\ Len(ptr) + 1 = Len(elem.path)
         /\ LET k == Last(elem.path)  d == Get(ctx, ptr)
                new == IF elem.o.rec /\ IsD(upd) /\ k \in Keys(d)
@@ -186,27 +193,30 @@ USet == /\ pc = "walk" /\ call.op = "update" /\ Len(ptr) + 1 = Len(elem.path)
                       ELSE upd
            IN /\ ctx' = Put(ctx, elem.path, new)
               /\ Return(Ok(Put(ctx, elem.path, new)))
-        /\ UNCHANGED <<call, elem, flow0, results, ctx0, ctx2, ptr, upd>>
+        /\ UNCHANGED <<nt, mode, call, elem, flow0, results, ctx0, ctx2, ptr, upd>>
 
 (***************************************************************************)
 (* DeleteContext                                                           *)
 (***************************************************************************)
+\* the constructor turns the key argument - a list, a tuple or a dotted string - into the list of keys
+\* the element works with (a string through str_to_list: the empty string is the empty list)
 DMake == /\ pc = "start" /\ call.op = "delete"
-         /\ pc' = "dwalk" /\ UNCHANGED <<call, elem, flow0, results, ctx0, ctx2, ctx, out, ptr, upd>>
+         /\ elem' = [elem EXCEPT !.path = NormKey(nt, KeyArg(nt, call.path))]
+         /\ pc' = "dwalk" /\ UNCHANGED <<nt, mode, call, flow0, results, ctx0, ctx2, ctx, out, ptr, upd>>
 DEmpty == /\ pc = "dwalk" /\ call.op = "delete" /\ elem.path = <<>>
-          /\ \E r \in DeleteOutcomes(elem, ctx) : Return(r.out) /\ ctx' = r.post
-          /\ UNCHANGED <<call, elem, flow0, results, ctx0, ctx2, ptr, upd>>
+          /\ LET r == DeleteOutcomeM(elem, ctx, mode) IN Return(r.out) /\ ctx' = r.post
+          /\ UNCHANGED <<nt, mode, call, elem, flow0, results, ctx0, ctx2, ptr, upd>>
 DWalk == /\ pc = "dwalk" /\ call.op = "delete" /\ Len(ptr) + 1 < Len(elem.path)
          /\ LET k == elem.path[Len(ptr) + 1]  d == Get(ctx, ptr) IN
               IF k \in Keys(d) /\ IsD(d.m[k])
                 THEN ptr' = Append(ptr, k) /\ UNCHANGED <<pc, out>>
               ELSE Return(Ok(ctx)) /\ ptr' = ptr          \* no such key: ignored
-         /\ UNCHANGED <<call, elem, flow0, results, ctx0, ctx2, ctx, upd>>
+         /\ UNCHANGED <<nt, mode, call, elem, flow0, results, ctx0, ctx2, ctx, upd>>
 DDel == /\ pc = "dwalk" /\ call.op = "delete" /\ elem.path # <<>> /\ Len(ptr) + 1 = Len(elem.path)
         /\ LET k == Last(elem.path)  d == Get(ctx, ptr)
                e == IF k \in Keys(d) THEN Del(ctx, elem.path) ELSE ctx
            IN ctx' = e /\ Return(Ok(e))
-        /\ UNCHANGED <<call, elem, flow0, results, ctx0, ctx2, ptr, upd>>
+        /\ UNCHANGED <<nt, mode, call, elem, flow0, results, ctx0, ctx2, ptr, upd>>
 
 (***************************************************************************)
 (* format_update_with(key, value, d)                                       *)
@@ -218,10 +228,10 @@ WFormat == /\ pc = "start" /\ call.op = "fuw"
               ELSE IF elem.path = <<>> THEN Return(Raise("LenaValueError")) /\ upd' = upd
               ELSE /\ upd' = IF elem.uk = "simple" THEN elem.uv ELSE Rendered
                    /\ pc' = "wupd" /\ out' = out
-           /\ UNCHANGED <<call, elem, flow0, results, ctx0, ctx2, ctx, ptr>>
+           /\ UNCHANGED <<nt, mode, call, elem, flow0, results, ctx0, ctx2, ctx, ptr>>
 WUpdate == /\ pc = "wupd" /\ call.op = "fuw"
            /\ LET e == UpdRec(ctx, Nest(elem.path, upd)) IN ctx' = e /\ Return(Ok(e))
-           /\ UNCHANGED <<call, elem, flow0, results, ctx0, ctx2, ptr, upd>>
+           /\ UNCHANGED <<nt, mode, call, elem, flow0, results, ctx0, ctx2, ptr, upd>>
 
 (***************************************************************************)
 (* The same element is applied to the next value of the flow.              *)
@@ -237,7 +247,7 @@ NextValue == /\ Done /\ IsElement /\ ~NotBuilt /\ Len(results) + 1 < Len(flow0)
                           [] call.op = "format" -> "parsed"      \* the formatter made by format_context is reused
                           [] OTHER -> "start"
              /\ out' = Ok(NoVal) /\ ptr' = <<>> /\ upd' = NoVal
-             /\ UNCHANGED <<call, elem, flow0, ctx2>>
+             /\ UNCHANGED <<nt, mode, call, elem, flow0, ctx2>>
 
 Next == \/ NextValue \/ GDNorm
         \/ GWalk \/ GLast \/ CWalk \/ CLast \/ S2D \/ FParse \/ FRender \/ TStr
@@ -255,7 +265,8 @@ GetIsRef      == /\ Finished("get") => out = GetRefC(call, ctx0)
 ContainsIsRef == Finished("contains") => out = Ok(ContainsRef(ctx0, call.path))
 FormatIsRef   == Finished("format") => out = FormatOutcome(call, ctx0)
 UpdateIsRef   == Finished("update") => Res(out, ctx) \in UpdateOutcomes(call, ctx0, Rendered)
-DeleteIsRef   == Finished("delete") => Res(out, ctx) \in DeleteOutcomes(call, ctx0)
+DeleteIsRef   == Finished("delete") => /\ Res(out, ctx) \in DeleteOutcomes(call, ctx0)
+                                       /\ Res(out, ctx) = DeleteOutcomeM(call, ctx0, mode)   \* whatever the notation
 FuwIsRef      == Finished("fuw") => Res(out, ctx) \in FuwOutcomes(call, ctx0, Rendered)
 
 (***************************************************************************)
@@ -309,19 +320,23 @@ OnlyDocumentedExceptions ==
   Done /\ ~out.ok => /\ out.exc \in {"LenaKeyError", "LenaTypeError", "LenaValueError"}
                      /\ ctx = ctx0
 \* an element is stateless: applying it changes neither its configuration nor the arguments it was built from
-ElementStateless == [][elem' = elem /\ call' = call]_vars
+\* (the stored configuration is made from the arguments once, by the constructor)
+ElementStateless == [][/\ call' = call /\ nt' = nt /\ mode' = mode
+                       /\ elem' # elem => pc = "start" /\ call.op = "delete"]_vars
+\* the three notations of a key address the same item: whatever the notation, the element works with
+\* the path itself - the empty path (the whole context) included
+NotationsAgree == call.op = "delete" /\ pc # "start" => elem.path = call.path
 \* hence every value of the flow gets the outcome of a single call on that value
 OutcomesOf(c, d) == CASE c.op = "update" -> UpdateOutcomes(c, d, Rendered)
-                      [] c.op = "delete" -> DeleteOutcomes(c, d)
+                      [] c.op = "delete" -> {DeleteOutcomeM(c, d, mode)}
                       [] c.op = "fuw" -> FuwOutcomes(c, d, Rendered)
                       [] c.op = "format" -> {Res(FormatOutcome(c, d), d)}
 FlowIsFunction == Done /\ IsElement =>
   /\ \A j \in DOMAIN results : results[j] \in OutcomesOf(call, flow0[j])
   /\ Res(out, ctx) \in OutcomesOf(call, flow0[Len(results) + 1])
   /\ ctx0 = flow0[Len(results) + 1]
-  \* equal values, equal results (where the documentation fixes the result)
-  /\ ~(call.op = "delete" /\ call.path = <<>>) =>
-        \A j \in DOMAIN results : flow0[j] = flow0[Len(results) + 1] => results[j] = Res(out, ctx)
+  \* equal values, equal results (for an empty key of DeleteContext: under the element's policy)
+  /\ \A j \in DOMAIN results : flow0[j] = flow0[Len(results) + 1] => results[j] = Res(out, ctx)
 \* queries never change the context
 QueriesPure == [][call.op \in {"get", "getd", "contains", "s2d", "format", "tostr"} /\ ~(Done /\ pc' # "done")
                     => ctx' = ctx]_vars
@@ -342,10 +357,10 @@ OptsAll == [value : BOOLEAN, def : BOOLEAN, skip : BOOLEAN, raise : BOOLEAN, rec
 DVsQuick == {"none", "zero", "edict"}
 DVsAll == {"none", "zero", "estr", "false", "elist", "edict"}
 OptsDV(dvs) == {o \in [value : BOOLEAN, def : {TRUE}, skip : BOOLEAN, raise : BOOLEAN, rec : BOOLEAN, dv : dvs] : TRUE}
-QueryCalls(np, nt) ==
+QueryCalls(np, ntok) ==
        {Call("get", p, d, <<>>, "none", Empty, NoOpts) : p \in Paths(np), d \in BOOLEAN}
   \cup {Simple("contains", p) : p \in Paths(np) \ {<<>>}}
-  \cup {Call("format", <<>>, FALSE, t, "str", Empty, NoOpts) : t \in Tpls(nt) \cup ConvTpls}
+  \cup {Call("format", <<>>, FALSE, t, "str", Empty, NoOpts) : t \in Tpls(ntok) \cup ConvTpls}
   \cup {Call("format", <<>>, FALSE, <<>>, uk, Empty, NoOpts) : uk \in {"bad", "simple"}}
   \cup {Simple("tostr", <<>>)}
 UpdTpls == {<<Fld(<<K1>>)>>, <<Fld(<<K1, K2>>)>>, <<Fld(<<K2>>)>>,
@@ -439,7 +454,8 @@ CallsUnprintable == {Simple("contains", p) : p \in Paths(3) \ {<<>>}}
 (* Export (S2C): the call, the context, the outcome; rend = the tokens of  *)
 (* the rendered template (for "$rendered")                                 *)
 (***************************************************************************)
-Emit == Terminal => PrintT(ToJson([call |-> call, ctx |-> ctx0, ctx2 |-> ctx2, out |-> out, post |-> ctx,
+Emit == Terminal => PrintT(ToJson([call |-> call, nt |-> nt, mode |-> mode,
+                                   ctx |-> ctx0, ctx2 |-> ctx2, out |-> out, post |-> ctx,
                                    rend |-> Render(ctx0, call.tpl),
                                    flow |-> flow0, results |-> Append(results, Res(out, ctx)),
                                    rends |-> [j \in DOMAIN flow0 |-> Render(flow0[j], call.tpl)]]))
